@@ -373,6 +373,21 @@ def run(ctx):
             ctx.cls("instances-with-dangling-keys")
         sqla_env.load_relational(inst)
         graph = R.Graph(inst)
+        if inst_name == "canonical" or inst_name.startswith("dangling"):
+            k = 0
+            for t in R.owner_path_lambda_grid("post"):
+                for bname in ("select-id", "query", "prefiltered"):
+                    if bname not in sb:
+                        continue
+                    k += 1
+                    if ctx.mine(k):
+                        ctx.count("owner_path_lambda_cells")
+                        judge(ctx, graph, inst_name, "sqlalchemy", bname, sb[bname][0], sb[bname][1], t, twice=False)
+                if not inst.get("_dangling"):
+                    for bname in list(db)[:1]:
+                        k += 1
+                        if ctx.mine(k):
+                            judge(ctx, graph, inst_name, "django", bname, db[bname][0], db[bname][1], t, twice=False)
         for bname, (fn, ordered) in sb.items():
             for i in range(per):
                 if ctx.out_of_time():
